@@ -1,5 +1,6 @@
 import Bt.Engine.Ops
 import Bt.Algos.Rebalance
+import Bt.Engine.Backtest
 import Bt.Driver.Tok
 /- Engine part of the driver: (de)serialisation of worlds and dispatch of `step` requests at `Float`. -/
 namespace Bt.Driver
@@ -121,6 +122,13 @@ def pStep : P (Except Err (World Float)) := do
   | "read" => do
     let path ← list nat; let g ← nat
     pure (opRead cfg w path (getterOf g))
+  | "btday" => do
+    -- one pass of the loop body of `Backtest.run` / of the shadow copy's stepping: the strategy's algos are the
+    -- real ones, so `run` is "what the real run() produced" (given), or absent when the real code did not call it
+    let d ← nat; let ran ← bool
+    let w2 ← if ran then some <$> pWorld else pure none
+    let run : RunFn Float := fun _ _ => match w2 with | some x => pure x | none => throw Err.badPath
+    pure (btDay cfg run d w)
   | _ => throw s!"unknown op {op}"
 
 def handleStep (line : String) : String :=
@@ -128,5 +136,29 @@ def handleStep (line : String) : String :=
   | .error e => "bad " ++ e
   | .ok (.error e) => "err " ++ e.toString
   | .ok (.ok w) => "ok " ++ " ".intercalate (prWorld w)
+
+/-- `paperseq <child clock> <update dates>` -> the dates on which the shadow copy is stepped -/
+def handlePaperSeq (line : String) : String :=
+  match Tok.run (do let now ← opt nat; let calls ← list nat; pure (now, calls)) line with
+  | .error e => "bad " ++ e
+  | .ok (now, calls) => "ok " ++ " ".intercalate (pList pNat (clockDates calls now))
+
+/-- `session <ops>`: ops are `C` (construct) or `R i` (run backtest i); answer: the `has_run` flag of every backtest -/
+def handleSession (line : String) : String :=
+  let p : P (List (SessOp Float)) := list (do
+    let t ← next
+    if t == "C" then pure (SessOp.construct 0.0 []) else do let i ← nat; pure (SessOp.run i))
+  match Tok.run p line with
+  | .error e => "bad " ++ e
+  | .ok ops =>
+    let sd : StratData Float :=
+      { name := "t", fixedIncome := false, bidofferSet := false, paperTrade := false, paperPx := 0.0, comm := fun _ _ => 0.0,
+        now := none, capital := 0.0, price := 100.0, value := 0.0, notl := 0.0, weight := 0.0, netFlows := 0.0, lastValue := 0.0,
+        lastNotl := 0.0, lastPrice := 100.0, lastFee := 0.0, bidofferPaid := 0.0, bankrupt := false,
+        rPrice := [], rValue := [], rNotl := [], rCash := [], rFees := [], rFlows := [], rBidofferPaid := [] }
+    let dummy : World Float := ⟨.strat sd [], false⟩
+    let cfg : Cfg Float := default
+    let s := (⟨dummy, []⟩ : Session Float).steps cfg (fun _ w => pure w) ops
+    "ok " ++ " ".intercalate (pList pBool (s.bts.map (·.hasRun)))
 
 end Bt.Driver
